@@ -43,6 +43,21 @@ def _orig(r, ident, used_names, plain=False):
     return name
 
 
+def _cross_name(r, items, rate=0.25):
+    """Sometimes give one element the ORIGINAL NAME that is another (renamed) sibling's IDENTIFIER: references go by
+    identifier, and a reader that looks names up first would pick the wrong sibling."""
+    if len(items) < 2 or r.random() >= rate:
+        return
+    renamed = [b for b in items if b.get("name") != b["id"]]
+    if not renamed:
+        return
+    b = r.choice(renamed)
+    others = [a for a in items if a is not b and a["id"].lower() != b["id"].lower()]
+    if not others or any(x.get("name") == b["id"] for x in items):
+        return
+    r.choice(others)["name"] = b["id"]
+
+
 def gen_design(r, cfg):
     nlib = cfg.get("n_libs", r.choice([1, 1, 2, 3]))
     libs = []
@@ -89,6 +104,7 @@ def gen_design(r, cfg):
                             pr["orig"] = pk + "[0]"
                         inst["props"].append(pr)
                     cell["instances"].append(inst)
+            _cross_name(r, cell["instances"])
             # nets
             free = []
             for p in cell["ports"]:
